@@ -374,8 +374,17 @@ func c05Purity(es []c05Entry, root resolve.VersionKey, mk func(resolve.Client) r
 	c05SameGraph(c05Clone(g1), c05Clone(g1b), "asking again")
 	if len(es) > 1 {
 		alt := es[1+vParam("alt")%(len(es)-1)].v.VersionKey
-		_, _ = r.Resolve(ctx, alt)
+		gAlt, errAlt := r.Resolve(ctx, alt)
+		if errAlt != nil {
+			gAlt = nil
+		}
 		vCover(true, "other root resolved in between")
+		// the other root's own graph does not depend on the resolutions run before it on this resolver
+		gFresh, errFresh := mk(c05Client(es, false)).Resolve(ctx, alt)
+		if errFresh != nil {
+			gFresh = nil
+		}
+		c05SameGraph(c05Clone(gAlt), c05Clone(gFresh), "a root resolved after another one, against a fresh resolver")
 		g1c, err := r.Resolve(ctx, root)
 		if err != nil {
 			g1c = nil
